@@ -81,6 +81,7 @@ def run(tier, seed):
         for m in (meta.get("mismatches") or [])[:2]:
             check.violation(dict(family="concurrent-race-build", mismatch=m), "outcome differs from the same call alone (race build, class %s)" % m["class"])
     jobs = [(conc, (vh, "concurrent", ["-seed", seed, "-g", gs, "-n", n], False)),
+            (conc, (vh, "concurrent-unpoisoned", ["-seed", seed + 2, "-g", "4,16" if quick else "2,4,8,16,32", "-n", n, "-poison=false"], False)),
             (conc, (vhd, "concurrent-debugpools", ["-seed", seed + 1, "-g", "2,8" if quick else "2,4,8,16", "-n", n, "-full"], True))]
     jobs += [(race, (k, v)) for k, v in enumerate(variants)]
     common.parallel(lambda j: j[0](j[1]), jobs, jobs=len(jobs))
